@@ -20,13 +20,32 @@ def cross_lang_json(path):
     return len(langs) > 1
 
 
+PY_ONLY = "Pyo"     # shapes whose generated C++ does not compile (known finding of C08: map keys without std::hash): Python hops only
+
+
+def py_only_shapes():
+    from am import P, N, Map, Vec, Opt
+    out = []
+    for k in ("date", "time", "datetime", "complexfloat32", "complexfloat64"):   # float keys: the value generator offers 0.0 and -0.0, which are one key
+        out += [Map(P(k), P("int32")), Map(P(k), N("RS")), Vec(Map(P(k), P("string"))), Opt(Map(P(k), P("bool")))]
+    return out
+
+
 def worker(chk, pkg, index):
     tier = chk.tier
     k = 1 if tier == "quick" else 2
-    pr = roundtrip.prepare_one(pkg, index, want_cpp=True, want_py=True)
+    py_only = pkg.namespace.startswith(PY_ONLY)
+    pr = roundtrip.prepare_one(pkg, index, want_cpp=not py_only, want_py=True)
     try:
         if pr.gen_rc != 0:
             raise build.HarnessError("yardl rejected a packed package %s: %s" % (pkg.namespace, pr.gen_err[-600:]))
+        if py_only:
+            eng = rtengine.Engine(chk, pr, 2, max_exec=8 if tier == "quick" else 30, cap=40 if tier == "quick" else 300)
+            eng.run(paths_binary=[[("py", "b2b", 1)], [("py", "b2b", 3)]],
+                    paths_json=[[("py", "b2n", 1), ("py", "n2b", 1)], [("py", "b2n", 3), ("py", "n2n", 1), ("py", "n2b", 1)]])
+            chk.extra["packages"] = 1
+            chk.extra["protocols"] = len(pr.steps)
+            return
         if pr.cpp is None:
             first = list(pr.cpp_errors.values())[0]
             chk.fail("cpp-does-not-compile/%s" % pkg.namespace, "generated C++ of an accepted package does not compile: %s" % first[:500],
@@ -58,6 +77,7 @@ def main(tier):
     packed = shapes.pack(sh, "Pk")
     packed.append((shapes.pattern_package(4 if tier == "quick" else 5)[0], []))
     packed.append((shapes.buffer_package()[0], []))
+    packed += shapes.pack(py_only_shapes(), PY_ONLY)
     chk.extra.update({"shapes": len(sh), "depth": d, "k": 1 if tier == "quick" else 2})
     roundtrip.run_packages(chk, packed, worker)
     chk.assumptions += ["MATLAB generated code cannot be executed here (its serialization plan is compared statically under C14)",
